@@ -46,7 +46,7 @@
 //!   random order, frames; existing C2PA GEOB frame in the ID3 prefix (where this SDK stores it).
 //! * jxl: `JXL ` + ftyp, jxll, jxlc or jxlp x1..3, Exif / xml / non-C2PA jumb / unknown boxes before or after the
 //!   codestream, 64-bit largesize header, last box with size 0; existing C2PA jumb before or after.
-//! * mp4 / mov / m4a / heic / avif: ftyp brands; moov with 1..3 traks (stco or co64, fixed or per-sample stsz,
+//! * mp4 / mov / m4a / heic / avif: ftyp brands; moov with 1..3 traks (stco or co64; variant `long-tables`: 1100..4000 chunk offsets per track, fixed or per-sample stsz,
 //!   stsc runs, stss, edts, udta with meta/ilst), meta with hdlr/pitm/iloc (v0/v1/v2, offset size 0/4/8,
 //!   length size 4/8, base offset size 0/4/8 with relative extents, 1..3 items x 1..2 extents, idat
 //!   construction method 1)/iinf/iprp, 1..2 mdat with 32-bit, 64-bit largesize or size-0 headers and
@@ -169,6 +169,10 @@ pub const VARIANTS: &[(&str, &str)] = &[
     ("heic", "iloc-zero-base"),    // iloc base_offset_size 4 with base_offset 0 and absolute extent offsets
     ("avif", "iloc-v1-base-noindex"),
     ("avif", "iloc-zero-base"),
+    // not a mis-parse probe: tracks with 1100..4000 chunk offsets (a long recording), so that code walking
+    // stco / co64 in blocks is exercised past its first block
+    ("mp4", "long-tables"),
+    ("m4a", "long-tables"),
 ];
 
 /// Like `synth`, with one of `VARIANTS` forced on (panics on an unknown (kind, variant) pair).
@@ -2328,14 +2332,15 @@ fn gen_trak(cx: &mut Cx, t: usize, audio: bool, blobs: &mut Vec<Blob>, nmdat: us
     let mut mdhd = vec![0u8; 20];
     mdhd[8..12].copy_from_slice(&be32(if audio { 44100 } else { 30000 }));
     // samples, chunks
-    let nsamples = cx.range(1, 12);
+    let long = cx.variant == "long-tables";
+    let nsamples = if long { cx.range(1700, 4000) } else { cx.range(1, 12) };
     let fixed = cx.chance(1, 4);
     let fsz = cx.range(1, (budget / nsamples).max(1));
     let sizes: Vec<usize> = (0..nsamples).map(|_| if fixed { fsz } else { cx.around(budget / nsamples, 1) }).collect();
     // partition the samples into chunks
     let mut chunks: Vec<Vec<usize>> = vec![];
     let mut cur: Vec<usize> = vec![];
-    let per = cx.range(1, 4);
+    let per = if long { 1 } else { cx.range(1, 4) };
     for (i, _) in sizes.iter().enumerate() {
         cur.push(i);
         if cur.len() >= per && cx.chance(2, 3) || cur.len() >= per + 2 {
